@@ -8,7 +8,8 @@ def realDeadline (σ : St) (cs : Int) : Time :=
   (Time.ofCs cs).add (σ.tsf.add (σ.ltr.sub (getTimer σ)))
 
 theorem create_B1_eq (b : Bool) (σ : St) (id : Nat) (cs : Int) (hcs : 0 < cs) (hpc : σ.pc = .idle)
-    (hf : id ∉ σ.used) (hr : σ.running = true) (hlt : (Time.ofCs cs).lt (getTimer σ) = true) :
+    (hf : id ∉ σ.used) (hr : σ.running = true) (hlt : (Time.ofCs cs).lt (getTimer σ) = true)
+    (hdf : σ.deferredFlag = false) :
     steps b 4 (create σ id cs) = { σ with
        pending := insertEv ⟨realDeadline σ cs, id, σ.now, cs⟩ σ.pending
        tsf := σ.tsf.add (σ.ltr.sub (getTimer σ))
@@ -24,12 +25,13 @@ theorem create_B1_eq (b : Bool) (σ : St) (id : Nat) (cs : Int) (hcs : 0 < cs) (
   obtain ⟨_, _, hnz, hok⟩ := ofCs_facts hcs
   have hne : ¬ cs ≤ 0 := by omega
   have hlt' : (Time.ofCs cs).lt (getTimer σ) = true := hlt
-  simp [steps, create, step, hpc, hf, hr, hnz, hok, hne, realDeadline]
+  simp [steps, create, step, leave, finish, hdf, hpc, hf, hr, hnz, hok, hne, realDeadline]
   simp [getTimer] at hlt'
   simp [getTimer, hlt', hnz, hok]
 
 theorem create_B2_eq (b : Bool) (σ : St) (id : Nat) (cs : Int) (hcs : 0 < cs) (hpc : σ.pc = .idle)
-    (hf : id ∉ σ.used) (hr : σ.running = true) (hlt : (Time.ofCs cs).lt (getTimer σ) = false) :
+    (hf : id ∉ σ.used) (hr : σ.running = true) (hlt : (Time.ofCs cs).lt (getTimer σ) = false)
+    (hdf : σ.deferredFlag = false) :
     steps b 3 (create σ id cs) = { σ with
        pending := insertEv ⟨realDeadline σ cs, id, σ.now, cs⟩ σ.pending
        used := id :: σ.used
@@ -39,7 +41,7 @@ theorem create_B2_eq (b : Bool) (σ : St) (id : Nat) (cs : Int) (hcs : 0 < cs) (
        log := .constructed id σ.now :: .getitimer σ.remaining :: .born id σ.now cs :: σ.log } := by
   have hne : ¬ cs ≤ 0 := by omega
   have hlt' : (Time.ofCs cs).lt (getTimer σ) = false := hlt
-  simp [steps, create, step, hpc, hf, hr, hne, realDeadline]
+  simp [steps, create, step, leave, finish, hdf, hpc, hf, hr, hne, realDeadline]
   simp [getTimer] at hlt'
   simp [getTimer, hlt']
 
@@ -102,9 +104,9 @@ theorem clock_insert_parts {σ : St} (h : Clock σ) (hr : σ.running = true) (id
       rw [hmin, a4 e0 r0 hpd]
 
 theorem clock_create_B1 {σ : St} (h : Clock σ) (id : Nat) (cs : Int) (hcs : 0 < cs) (hpc : σ.pc = .idle)
-    (hf : id ∉ σ.used) (hr : σ.running = true) (hlt : (Time.ofCs cs).lt (getTimer σ) = true) :
-    Clock (steps false 4 (create σ id cs)) := by
-  rw [create_B1_eq false σ id cs hcs hpc hf hr hlt]
+    (hf : id ∉ σ.used) (hr : σ.running = true) (hlt : (Time.ofCs cs).lt (getTimer σ) = true)
+    (hdf : σ.deferredFlag = false) : Clock (steps false 4 (create σ id cs)) := by
+  rw [create_B1_eq false σ id cs hcs hpc hf hr hlt hdf]
   obtain ⟨hn, hu, _, _⟩ := ofCs_facts hcs
   obtain ⟨a1, a2, a3, a4⟩ := h.armed hr
   have F := bfacts h hr hcs
@@ -159,9 +161,9 @@ theorem clock_create_B1 {σ : St} (h : Clock σ) (id : Nat) (cs : Int) (hcs : 0 
       · right; right; exact ⟨t, by simp [ht]⟩
 
 theorem clock_create_B2 {σ : St} (h : Clock σ) (id : Nat) (cs : Int) (hcs : 0 < cs) (hpc : σ.pc = .idle)
-    (hf : id ∉ σ.used) (hr : σ.running = true) (hlt : (Time.ofCs cs).lt (getTimer σ) = false) :
-    Clock (steps false 3 (create σ id cs)) := by
-  rw [create_B2_eq false σ id cs hcs hpc hf hr hlt]
+    (hf : id ∉ σ.used) (hr : σ.running = true) (hlt : (Time.ofCs cs).lt (getTimer σ) = false)
+    (hdf : σ.deferredFlag = false) : Clock (steps false 3 (create σ id cs)) := by
+  rw [create_B2_eq false σ id cs hcs hpc hf hr hlt hdf]
   obtain ⟨hn, hu, _, _⟩ := ofCs_facts hcs
   obtain ⟨a1, a2, a3, a4⟩ := h.armed hr
   have F := bfacts h hr hcs
